@@ -191,6 +191,7 @@ SelectedIsMin == pc = "selected" => /\ Len(costs) = NK /\ bestk \in 1..NK
 (*         (numbers as the strings of their exact decimal representation)  *)
 (*   bitsA[j], bitsB[j]  bit patterns (hex) of the returned centre of      *)
 (*         module j in two independent executions on equal inputs          *)
+(*   bitsV the same for the call with visualize = a name (stub plot)       *)
 (*   bitsX the same for an execution in a separate, freshly forked process *)
 (*         (empty if the observation was not repeated there)               *)
 (* "Not moved" is judged to 1e-9 of the die size (1 unit): the code        *)
@@ -214,7 +215,10 @@ JudgeRun(o) ==
     same_nets       |-> o.sig1.nets = o.sig0.nets,                                              \*  and nets"
     deterministic   |-> o.bitsA = o.bitsB,                                                      \* "it is deterministic":
     \* ... also across processes (bitsX = <<>>: this observation was not repeated in another process)
-    deterministic_across_processes |-> o.bitsX = <<>> \/ o.bitsX = o.bitsA ]
+    deterministic_across_processes |-> o.bitsX = <<>> \/ o.bitsX = o.bitsA,
+    \* `visualize` ("if not None, saves the intermediate layouts as a GIF") is an output option: the layout returned is the
+    \* one computed from die, kappa and max_iter, with or without it (bitsV = <<>>: no visualize variant was run)
+    visualize_returns_the_same_layout |-> o.bitsV = <<>> \/ o.bitsV = o.bitsA ]
 
 \* A selection observation `s` (one call of force_algorithm seen through a wrapper of the layout function):
 \*   tried  <<kappa * 1000, cost, layout, rank, iterations>> for every spring constant it tried, in order; cost = the library's
